@@ -239,6 +239,8 @@ pub const FN_ABORT: u32 = 4;
 pub const FN_EMIT: u32 = 5;
 pub const FN_DELAYED: u32 = 6;
 pub const FN_STOP: u32 = 7;
+/// the callee keeps the promise and waits to be told that the caller has aborted the call
+pub const FN_WAIT_ABORT: u32 = 8;
 
 #[derive(Clone, Debug)]
 pub struct ServerCfg {
@@ -274,9 +276,24 @@ pub async fn server(sh: Sh, h: Handle, cfg: ServerCfg, ready: Signal<Option<Serv
         }
     };
     ready.set(Some(svc.id()));
+    // promises of FN_WAIT_ABORT calls: watched for the caller's abort while serving other calls
+    let mut waiting: Vec<aldrin::low_level::Promise> = Vec::new();
     loop {
         sh.op("next_call");
-        let Some(call) = svc.next_call().await else { break };
+        let next = std::future::poll_fn(|cx| {
+            let mut i = 0;
+            while i < waiting.len() {
+                if waiting[i].poll_aborted(cx).is_ready() {
+                    sh.op("promise.aborted");
+                    drop(waiting.swap_remove(i));
+                } else {
+                    i += 1;
+                }
+            }
+            svc.poll_next_call(cx)
+        })
+        .await;
+        let Some(call) = next else { break };
         let f = call.id();
         match f {
             FN_ECHO | FN_DELAYED => match call.deserialize::<u64>() {
@@ -328,6 +345,10 @@ pub async fn server(sh: Sh, h: Handle, cfg: ServerCfg, ready: Signal<Option<Serv
                     let _ = call.invalid_args();
                 }
             },
+            FN_WAIT_ABORT => {
+                sh.op("promise.keep");
+                waiting.push(call.into_promise());
+            }
             FN_STOP => {
                 let _ = call.done();
                 break;
@@ -337,6 +358,15 @@ pub async fn server(sh: Sh, h: Handle, cfg: ServerCfg, ready: Signal<Option<Serv
             }
         }
     }
+    // promises still kept: if this client has stopped, waiting for the abort must resolve (C15:
+    // every pending operation completes); otherwise they are dropped, which answers "aborted"
+    if !waiting.is_empty() && matches!(h.sync_client().await, Err(aldrin::Error::Shutdown)) {
+        for mut p in waiting.drain(..) {
+            sh.op("promise.aborted:after-termination");
+            p.aborted().await;
+        }
+    }
+    drop(waiting);
     if cfg.version % 2 == 0 {
         sh.op("service.destroy");
         let _ = svc.destroy().await;
